@@ -39,7 +39,7 @@ def units(tier, seed):
         {"sid": "basic", "family": "inline_s", "size": 4 if q else 5, "donor": ("inline_s", 4), "max_slices": 40 if q else 300},
         {"sid": "list", "family": "lists_q", "size": 9 if q else 11, "donor": ("lists_q", 8 if q else 9), "max_slices": 30 if q else 300},
         {"sid": "iso", "family": "iso", "size": 7 if q else 9, "donor": ("iso", 7), "max_slices": 30 if q else 200},
-        {"sid": "table", "family": "table", "size": 10 if q else 16, "donor": ("table", 12), "max_slices": 330},
+        {"sid": "table", "family": "table", "size": 10 if q else 16, "donor": ("table", 12), "max_slices": 330, "blocks": 32},
         {"sid": "strict_hb", "family": "strict", "size": 9 if q else 11, "donor": ("strict", 9), "max_slices": 30 if q else 200},
         {"sid": "hp", "family": "hp", "size": 9 if q else 11, "donor": ("hp", 8), "max_slices": 30 if q else 200},
         # text with astral characters (two UTF-16 units each) before / after / around the range
